@@ -35,57 +35,66 @@ def _report(ctx, kind, rep):
     return inc
 
 
-def run(ctx):
-    quick = ctx.quick
-    tag = "mc" if quick else "thorough"
-    # 1. the design: the table is total, a fatal answer closes only this connection, a rejected publish
-    #    enqueues nothing, the state only moves forward, acceptance == inside the limits;
-    #    every command-class sequence to the configured depth is a behaviour (one distinct state each)
-    r = ctx.model_check("NsqdTcp", "NsqdTcp_%s.cfg" % tag, timeout=1500)
-    sequences_tlc = r.distinct
-    # 2. the table itself, for the replayer and the classifier
-    rr = ctx.tlc("NsqdTcpRows", "NsqdTcp_rows_%s.cfg" % tag, workers=1, timeout=600, label="rows")
+def _table(ctx, tag):
+    """Exhaustive TLC run of one configuration + its transition table.  Returns (rows file, #sequences)."""
+    # the design: the table is total, a fatal answer closes only this connection, a rejected publish
+    # enqueues nothing, the state only moves forward, acceptance == inside the limits; every
+    # command-class sequence to the configured depth is a behaviour (one distinct state each)
+    r = ctx.model_check("NsqdTcp", "NsqdTcp_%s.cfg" % tag, timeout=2400)
+    rr = ctx.tlc("NsqdTcpRows", "NsqdTcp_rows_%s.cfg" % tag, workers=1, timeout=900, label="rows")
     if rr.crashed or not rr.ok:
         raise Inconclusive("row dump failed:\n" + rr.out[-2000:])
     lines = [l.strip() for l in rr.out.splitlines() if l.startswith('"ROW ') or l.startswith('"SETUP ')]
     nrows = sum(1 for l in lines if l.startswith('"ROW '))
     if nrows < 1000:
         raise Inconclusive("only %d table rows extracted" % nrows)
-    rows = os.path.join(ctx.scratch, "table.txt")
+    rows = os.path.join(ctx.scratch, "table-%s.txt" % tag)
     with open(rows, "w") as f:
         f.write("\n".join(lines) + "\n")
     ctx.notes["table_rows"] = nrows
+    return rows, r.distinct
 
-    # 3. binding A: replay every sequence against real daemons
-    rep = os.path.join(ctx.scratch, "replay.json")
-    args = ["replay", "--rows", rows, "--seed", ctx.seed, "--report", rep, "--scratch", ctx.scratch]
-    if quick:
-        args += ["--workers", 12, "--big-every", 12, "--default-every", 40]
-    else:
-        args += ["--workers", 14, "--big-every", 25, "--default-every", 60]
-    rc, out, err = ctx.run_harness(args, timeout=3600 if quick else 7200, name="api09")
+
+def _replay(ctx, rows, sequences_tlc, label, extra, timeout):
+    """Binding A: replay the sequences of one configuration against real daemons."""
+    rep = os.path.join(ctx.scratch, "replay-%s.json" % label)
+    args = ["replay", "--rows", rows, "--seed", ctx.seed, "--report", rep, "--scratch", ctx.scratch] + extra
+    rc, out, err = ctx.run_harness(args, timeout=timeout, name="api09")
     log(out.strip()[-400:])
     if not os.path.exists(rep):
         if "panic:" in err and "nsqio/nsq/nsqd" in err and "verifharness" not in err.split("panic:")[1][:1500]:
             p = ctx.save_replay("daemon-crash", {"stderr": err[-8000:]})
             ctx.violation("in-process nsqd panicked while the sequences were replayed:\n" + err[-1500:], p, key="daemon panic")
-            return
+            return []
         raise Inconclusive("api09 replay failed (rc %s):\n%s" % (rc, (out + err)[-3000:]))
     R = json.load(open(rep))
     if R["nodes"] != sequences_tlc:
         raise Inconclusive("the replayer walked %d nodes, TLC enumerated %d sequences: table and enumeration out of sync"
                            % (R["nodes"], sequences_tlc))
     ctx.cov["evaluations"] += R["commands"]
-    ctx.cov["distinct_nontrivial"] += R["sequences"]
-    ctx.cov["exhaustive"] = True
-    ctx.notes["replayed_sequences"] = R["sequences"]
-    ctx.notes["replay_runs"] = R["runs"]
-    ctx.notes["table_rows_exercised"] = R["rows_covered"]
-    ctx.notes["daemon_limits"] = R["limits"]
-    ctx.notes["bystander_published_consumed"] = R["bystander"]
-    for s in (R.get("samples") or [])[:4]:
+    ctx.cov["distinct_nontrivial"] += R["replayed"]
+    ctx.notes["replay_" + label] = {k: R[k] for k in ("sequences", "replayed", "runs", "commands", "rows_covered",
+                                                       "slow_req_checks", "wall_s", "bystander", "limits")}
+    for s in (R.get("samples") or [])[:3]:
         ctx.sample({"replayed_sequence": s})
-    inc = _report(ctx, "replay", R)
+    return _report(ctx, "replay", R)
+
+
+def run(ctx):
+    quick = ctx.quick
+    # quick: every sequence of NsqdTcp_mc.cfg is replayed.  thorough: those, every pair of classes
+    # (NsqdTcp_fine.cfg, PrefixFine), plus a seeded third of the ten times larger NsqdTcp_thorough.cfg.
+    rows, n = _table(ctx, "mc")
+    inc = _replay(ctx, rows, n, "mc", ["--workers", 12, "--big-every", 12, "--default-every", 40], 3600)
+    ctx.cov["exhaustive"] = True
+    if not quick:
+        rows_f, n_f = _table(ctx, "fine")     # every class at both positions of a pair
+        inc += _replay(ctx, rows_f, n_f, "fine", ["--prefix-fine", "--workers", 14, "--big-every", 12, "--default-every", 40], 7200)
+        rows_t, n_t = _table(ctx, "thorough")
+        inc += _replay(ctx, rows_t, n_t, "thorough", ["--workers", 14, "--big-every", 25, "--default-every", 60,
+                                                      "--sample-mod", 3, "--sample-rem", ctx.seed % 3], 10800)
+        ctx.cov["exhaustive"] = False
+        ctx.notes["thorough_sampling"] = "every sequence of the quick and the all-pairs configuration; index %% 3 == %d of the thorough one" % (ctx.seed % 3)
 
     # 4. binding B: seeded byte streams -> classified events -> TLC against the table
     inc += run_streams(ctx, rows)
